@@ -4,6 +4,8 @@ import (
 	"encoding/json"
 	"fmt"
 	"strings"
+
+	"golang.org/x/tools/go/ssa"
 )
 
 // Run dispatches the rule set of one property. It returns false for an
@@ -60,6 +62,7 @@ func C03(c *Ctx) {
 	R2Model(c)
 	R2GuardRead(c, "C03")
 	R2Identity(c)
+	R8IDWidth(c)
 }
 
 func C10(c *Ctx) {
@@ -111,6 +114,27 @@ func Gen(c *Ctx, what string) int {
 func C06(c *Ctx) {
 	R10AuthGate(c)
 	R10PreAuthAssert(c)
+	// no pre-authentication message can crash the teamserver: panic sources in the code that
+	// runs before (and while) a connection authenticates
+	var roots []*ssa.Function
+	for _, n := range [][2]string{{PkgServer, "Teamserver.ClientAuthenticate"}, {PkgPackager, "Packager.CreatePackage"}, {PkgProfile, "Profile.ListOfUsernames"},
+		{PkgServer, "Teamserver.SendEvent"}, {PkgServer, "Teamserver.RemoveClient"}, {PkgService, "Service.authenticate"}} {
+		if fn := c.P.Func(n[0], n[1]); fn != nil {
+			roots = append(roots, fn)
+		} else {
+			c.R.Anchor("R1-preauth-scope", n[0]+"."+n[1])
+		}
+	}
+	scope := c.ScopeFrom(roots)
+	for _, n := range [][2]string{{PkgServer, "Teamserver.handleRequest"}, {PkgService, "Service.handleConnection"}} {
+		if fn := c.P.Func(n[0], n[1]); fn != nil {
+			scope = append(scope, fn)
+			scope = append(scope, fn.AnonFuncs...)
+		}
+	}
+	R1Bounds(c, scope, "-preauth", 3)
+	R1Nil(c, scope, "-preauth", 1)
+	R1Explicit(c, scope, "-preauth")
 }
 
 func C07(c *Ctx) {
